@@ -32,6 +32,7 @@ type Loader struct {
 	pkgs   map[string]*Pkg
 	std    types.Importer
 	prefer string // "repo" or "mirror"
+	stdlib *ContractFile // trusted contracts of standard-library functions (contracts/std_contracts.txt)
 }
 
 func NewLoader(root, mirror string) *Loader {
@@ -41,6 +42,13 @@ func NewLoader(root, mirror string) *Loader {
 	l.prefer = os.Getenv("VERIF_CONTRACTS")
 	if l.prefer == "" {
 		l.prefer = "repo"
+	}
+	if src, err := os.ReadFile(filepath.Join(mirror, "std_contracts.txt")); err == nil {
+		if cf, err := ParseContractFile(string(src), filepath.Join(mirror, "std_contracts.txt")); err == nil {
+			l.stdlib = cf
+		} else {
+			fmt.Fprintln(os.Stderr, "govc: std_contracts.txt:", err)
+		}
 	}
 	return l
 }
